@@ -320,6 +320,38 @@ static void workerHardHandler(const char* cls, const char* key, const char* msg)
 // First-call effects (function-local statics, lazily built tables) would make a run's step count depend
 // on what the process executed before it. Every process that executes counted runs - workers and the
 // isolated children used for shrinking and replay - therefore first executes the same throw-away runs.
+// A warm-up plan is a generated plan like any other, so on a defective tree it can itself fail hard
+// (memory error, crash) and would take the process down before the run of interest starts, with the failure
+// attributed to the wrong job. Each warm-up plan is therefore tried in a throw-away child first and only
+// executed in this process when the child survived it; its failures are never reported (the same defect is
+// found, attributed and replayed through the ordinary runs).
+static void silentHard(const char*, const char*, const char*) {}
+static void silentCrash(const char*) {}
+static bool warmupSurvives(const Scenario* sc, const Plan& plan, const SchedCfg& cfg)
+{
+	fflush(0);
+	pid_t pid = fork();
+	if (pid < 0)
+		return false;
+	if (pid == 0)
+	{
+		setHardFailHandler(silentHard);
+		setCrashWriter(silentCrash);
+		int nul = open("/dev/null", O_WRONLY);
+		if (nul >= 0)
+			dup2(nul, 2);
+		alarm(120);
+		RunResult res;
+		runOne(plan, cfg, sc->run, res);
+		_exit(0);
+	}
+	int st = 0;
+	while (waitpid(pid, &st, 0) < 0 && errno == EINTR)
+	{
+	}
+	return WIFEXITED(st) && WEXITSTATUS(st) == 0;
+}
+
 static void warmup(const Scenario* sc, int tier)
 {
 	for (uint64_t k = 0; k < 6; k++)
@@ -328,6 +360,8 @@ static void warmup(const Scenario* sc, int tier)
 		SchedCfg cfg;
 		derive(sc, 0xfffffff0ULL + k, tier, plan, cfg);
 		cfg.strategy = ST_RUN2BLOCK;
+		if (!warmupSurvives(sc, plan, cfg))
+			continue;
 		RunResult res;
 		runOne(plan, cfg, sc->run, res);
 	}
